@@ -87,7 +87,10 @@ def run_check(prop, tier):
         exe = fmcbuild.build_harness(h.get("src", hname), h["kind"], libdir, extra_wraps=h.get("wraps", ()), lib_objs=h.get("objs"), defs=h.get("defs", ()), extra_srcs=h.get("extra_srcs", ()), link_flags=h.get("link_flags", ()), variant=h.get("variant", ""))
         label = "%s-%d" % (hname, idx)
         remaining = budget - (time.time() - t0)
-        per = max(5.0, remaining)  # a run may use whatever is left of the check's budget
+        # a run may use up to three fair shares of what is left (the last ones may use it all), so that
+        # one oversized bound cannot starve the other runs of the check
+        left = len(runs) - idx
+        per = max(5.0, min(remaining, 3.0 * remaining / left))
         jpath = os.path.join(outdir, label + ".json")
         args = list(run["args"])
         cmd = [exe] + args + ["-name=" + label, "-out=" + outdir, "-json=" + jpath, "-deadline%.1f" % per]
